@@ -230,6 +230,12 @@ mut("R-C10-search-task-request-stop-stores-true", "C10", "stop-arm",
     ("src/uci.rs", "            .store(false, std::sync::atomic::Ordering::Relaxed);", "            .store(true, std::sync::atomic::Ordering::Relaxed);"), base=R + "R10-refactor2.diff")
 mut("R-C15-handle-line-continues-on-quit", "C15", "io-exits",
     ("src/uci.rs", "            return ControlFlow::Break(());", "            return ControlFlow::Continue(());"), base=R + "R10-refactor2.diff")
+# ---- on the fifth wave: castling moves produced by a loop over the two wings (R12-3)
+K12 = "src/board/piece/king.rs"
+mut("R-C01-castle-loop-queenside-file-b", "C01", "castle-move", (K12, "const QUEENSIDE_DEST_FILE: u8 = 2; // c-file", "const QUEENSIDE_DEST_FILE: u8 = 1; // c-file"), base=R + "R12-refactor3.diff")
+mut("R-C01-castle-loop-ignores-right", "C01", "castle-move", (K12, "                == CastlingStatus::Available\n            {\n                let dest = Square {", "                != CastlingStatus::Unavailable\n            {\n                let dest = Square {"), base=R + "R12-refactor3.diff")
+mut("R-C01-castle-loop-black-home-e1", "C01", "castle-move", (K12, "const BLACK_KING_HOME: Square = Square { rank: 7, file: 4 }; // e8", "const BLACK_KING_HOME: Square = Square { rank: 0, file: 4 }; // e8"), base=R + "R12-refactor3.diff")
+mut("R-C01-castle-loop-not-flagged", "C01", "castle-move", (K12, "                    Ply::builder(square, dest, Kind::King(color))\n                        .castles(true)", "                    Ply::builder(square, dest, Kind::King(color))\n                        .castles(false)"), base=R + "R12-refactor3.diff")
 
 
 if __name__ == "__main__":
